@@ -46,4 +46,4 @@ for f in $(ls "$T"/ref.* | sort); do cat $f; done | awk '/^C[0-9][0-9]\//{key=$1
 echo '```'
 } > docs/REFACTORS.md
 fi
-echo "seeds detected: $(grep -c DETECTED docs/SEEDED.md 2>/dev/null) missed: $(grep -c MISSED docs/SEEDED.md 2>/dev/null); refactorings silent: $(grep -c SILENT docs/REFACTORS.md 2>/dev/null) alarm: $(grep -c ALARM docs/REFACTORS.md 2>/dev/null)"
+echo "seeds detected: $(grep -c DETECTED docs/SEEDED.md 2>/dev/null) missed: $(grep -c MISSED docs/SEEDED.md 2>/dev/null); refactorings silent: $(grep -c "diff SILENT" docs/REFACTORS.md 2>/dev/null) alarm: $(grep -c "diff ALARM" docs/REFACTORS.md 2>/dev/null)"
